@@ -75,11 +75,20 @@ def cond_oracle(case):
     if not dep:
         return None
     cd = dm.ConditionalDistribution(Cls(**{"f_" + p: v for p, v in fixed.items()}), dep)
-    vals = [cd._get_param_values(g) for g in (0.3, 2.0, np.array([0.1, 5.0]))]
+    givens = (0.3, 2.0, np.array([0.1, 5.0]), 2, np.array([1, 2, 3]), [1, 2, 3])     # float and integer-typed conditioning values
+    vals = [cd._get_param_values(g) for g in givens]
     for p, v in fixed.items():
-        for pv in vals:
+        for g, pv in zip(givens, vals):
             if np.any(np.asarray(pv[p]) != v):
-                return ({"cls": cname, "clause": "conditional", "param": p}, "fixed parameter %s = %r depends on given: %r" % (p, v, pv[p]))
+                return ({"cls": cname, "clause": "conditional", "param": p}, "fixed parameter %s = %r becomes %r for given = %r" % (p, v, pv[p], g))
+    # ... and evaluation with an integer-typed given uses the fixed value (same numbers as with the same values as floats)
+    gi = np.array([1, 2, 3])
+    for m in ("cdf", "pdf"):
+        arg = np.asarray(cd.icdf(np.array([0.3, 0.5, 0.7]), gi.astype(float)), dtype=float)
+        a = np.asarray(getattr(cd, m)(arg, gi), dtype=float)
+        b = np.asarray(getattr(cd, m)(arg, gi.astype(float)), dtype=float)
+        if not np.allclose(a, b, rtol=1e-14, atol=0, equal_nan=True):
+            return ({"cls": cname, "clause": "conditional", "method": m}, "%s with integer-typed given differs from the same values as floats (fixed %r): %r vs %r" % (m, fixed, a.tolist(), b.tolist()))
     return None
 
 
@@ -122,6 +131,10 @@ def run(ctx):
                     for data in (("own", "other") if not ctx.quick() or rep == 0 else ("own",)):
                         cases.append({"cls": cname, "theta": th, "fixed": fixed, "fit": len(sub) < len(ps), "data": data,
                                       "n": rng.choice([150, 400]), "seed": rng.randrange(10 ** 6)})
+    # von Mises: a fixed mean direction anywhere on the line (directions are also given in [0, 2 pi))
+    for mu_fixed in (4.0, -3.5, 6.0, 2.0):
+        cases.append({"cls": "VonMisesDistribution", "theta": {"kappa": 2.0, "mu": mu_fixed}, "fixed": {"mu": mu_fixed}, "fit": True, "data": "own",
+                      "n": 300, "seed": rng.randrange(10 ** 6)})
     # least squares with delta fixed (the supported lsq subset), other lsq subsets must raise NotImplementedError
     for w in (None, "linear", "quadratic", "cubic"):
         th = D.rand_params(rng, "ExponentiatedWeibullDistribution")
@@ -155,19 +168,26 @@ def run(ctx):
 
         class MyWeibull(dm.ScipyDistribution):
             scipy_dist_name = "weibull_min"
-        data = sts.weibull_min.rvs(1.7, loc=0.2, scale=2.5, size=300, random_state=5)
-        vals = {"c": 2.0, "loc": 0.1, "scale": 3.0}
-        for r in (1, 2):
-            for sub in itertools.combinations(vals, r):
-                kw = {"f_" + k: vals[k] for k in sub}
-                d = MyWeibull(**kw)
-                ok = all(d.parameters[k] == vals[k] for k in sub)
-                d.fit(data)
-                ok = ok and all(math.isclose(float(d.parameters[k]), vals[k], rel_tol=1e-12) for k in sub)
-                ctx.count(("scipydist", sub), True)
-                if not ok:
-                    ctx.violation({"cls": "ScipyDistribution", "clause": "fit", "fixed": "+".join(sub)},
-                                  "ScipyDistribution subclass: fixed %r not honoured: %r" % (kw, d.parameters), {"cls": "ScipyDistribution", "fixed": kw})
+        class MyGenGamma(dm.ScipyDistribution):
+            scipy_dist_name = "gengamma"
+        for Cls_, data, vals in ((MyWeibull, sts.weibull_min.rvs(1.7, loc=0.2, scale=2.5, size=300, random_state=5), {"c": 2.0, "loc": 0.1, "scale": 3.0}),
+                                 (MyGenGamma, sts.gengamma.rvs(2.0, 1.5, scale=2.0, size=300, random_state=6), {"a": 1.7, "c": 2.3, "loc": 0.0, "scale": 2.5})):
+            for r in range(1, len(vals)):
+                for sub in itertools.combinations(vals, r):
+                    kw = {"f_" + k: vals[k] for k in sub}
+                    d = Cls_(**kw)
+                    ok = all(d.parameters[k] == vals[k] for k in sub)
+                    try:
+                        d.fit(data)
+                    except Exception as e:  # noqa
+                        ctx.violation({"cls": "ScipyDistribution", "clause": "fit-exception", "exc": type(e).__name__, "fixed": "+".join(sub)},
+                                      "ScipyDistribution(%s) fit with fixed %r raised %s" % (Cls_.scipy_dist_name, kw, type(e).__name__), {"cls": "ScipyDistribution", "fixed": kw})
+                        continue
+                    ok = ok and all(math.isclose(float(d.parameters[k]), vals[k], rel_tol=1e-12, abs_tol=1e-12) for k in sub)
+                    ctx.count(("scipydist", Cls_.scipy_dist_name, sub), True)
+                    if not ok:
+                        ctx.violation({"cls": "ScipyDistribution", "clause": "fit", "fixed": "+".join(sub)},
+                                      "ScipyDistribution(%s) subclass: fixed %r not honoured after fit: %r" % (Cls_.scipy_dist_name, kw, dict(d.parameters)), {"cls": "ScipyDistribution", "fixed": kw})
     except Exception as e:  # noqa
         ctx.violation({"cls": "ScipyDistribution", "clause": "exception", "exc": type(e).__name__}, "ScipyDistribution subclass raised %s: %s" % (type(e).__name__, e), {"cls": "ScipyDistribution"})
     ctx.notes["input_distribution"] = dist
